@@ -726,13 +726,10 @@ def sql_text_cases(payload):
                                     else:
                                         sql = q.get_sql()
                                 elif form == 'get':
-                                    if fu:
-                                        try: T.get_for_update(id=1, nowait=nowait, skip_locked=skip)
-                                        except Exception: pass
-                                    else:
-                                        try: T.get(id=1)
-                                        except Exception: pass
-                                    sql = db.sql if getattr(db, 'sql', None) else db.last_sql
+                                    db.sql = None
+                                    if fu: T.get_for_update(id=1, nowait=nowait, skip_locked=skip)
+                                    else: T.get(id=1)
+                                    sql = db.sql
                             rec['sql'] = sql
                         except Exception as e:
                             rec['error'] = '%s: %s' % (type(e).__name__, e)
